@@ -20,8 +20,8 @@ CHECKS = {
    text="Theorems (Props/C04.lean) over every reachable manager: see file. Tie: subscribers with chunk sizes {1,2,3,7,1000}, lagging and partially catching up (also ending on a revert), plus a late subscriber from nothing, poll UpdatesSince while fork trees are submitted; every returned path is compared with the model; oracle: reverts/applies contiguous, applies on the best chain, at most max updates, progress, every subscriber reaches the tip, and its shadow ledger folded from the carried diffs equals the ledger of an independent linear twin at the tip incl. Merkle proofs, which verify against the tip accumulator.",
    note=TRUST + " Merkle proof values and element contents are oracle-only (the model carries block ids). Concurrent polling is covered by the lock-discipline argument (every exported Manager method holds m.mu), not by a schedule exploration."),
  "C17": dict(level="proof", design="5/C17",
-   technique="Lean 4 refinement proof (MemDB model refines an abstract durable/working map for every operation sequence) + exhaustive/random differential correspondence of the model with the real MemDB/CacheDB/Bolt backends",
-   text="Theorem: the Lean model of MemDB (transcribed from chain/db.go) refines the abstract map specification step by step, hence returns the same results on every operation sequence of any length (memdb_trace_eq); the specification's read-your-writes/flush/cancel laws are theorems. Tie: every op sequence over a small alphabet up to length 5 (quick) / 6 (thorough) and long random sequences are executed on the real MemDB, CacheDB(MemDB), CacheDB(Bolt) and Bolt and compared line by line with the executable models (MemDB, CacheDB over MemDB/Spec, Spec) and with a reference map. CacheDB is covered by the executable model + exhaustive correspondence; its refinement theorem is not yet proved.",
+   technique="Lean 4 refinement proofs (the MemDB model refines an abstract durable/working map; the CacheDB model over ANY backend that refines that map refines it too; hence all backends agree on every operation sequence) + exhaustive/random differential correspondence of the models with the real MemDB/CacheDB/Bolt backends",
+   text="Theorem: the Lean model of MemDB (transcribed from chain/db.go) refines the abstract map specification step by step, hence returns the same results on every operation sequence of any length (memdb_trace_eq); the specification's read-your-writes/flush/cancel laws are theorems. Tie: every op sequence over a small alphabet up to length 5 (quick) / 6 (thorough) and long random sequences are executed on the real MemDB, CacheDB(MemDB), CacheDB(Bolt) and Bolt and compared line by line with the executable models (MemDB, CacheDB over MemDB/Spec, Spec) and with a reference map. CacheDB's refinement is now a theorem as well: for every inner backend B with a one-step simulation Refines B Ri of the abstract map, CacheDB over B simulates the abstract map step by step (cachedb_refines_spec, relation Rc: the outer state is the inner spec state seen through the well-formed, never-flushed overlay; Flush may range over the bucket names in any order, cachedb_names_irrelevant), CacheDB with the driver's name bookkeeping is again a refining backend (cache_refines, so caches stack: cache_of_cache_trace_eq), CacheDB over MemDB and CacheDB over Spec return exactly the specification's outputs on every operation list (cachedb_trace_eq) and MemDB, CacheDB(MemDB), CacheDB(Spec) and Spec give identical output sequences on every operation list of any length (backends_agree); non-vacuity examples are evaluated by the kernel. The driver runs exactly the functions of these theorems (CacheDB.stepN, CacheDB.init).",
    note=TRUST + " bbolt itself is not modelled (compared with Spec). Bucket handles are re-fetched per operation."),
  "C20": dict(level="proof", design="5/C20",
    technique="Lean 4 theorems over a bit-level model of wallet/seed.go (uint64 hi/lo pair, the source's shifts and masks, proved equal to base-2048 digits of entropy*16+checksum; all 2^128 entropies, all word sequences, all strings, any checksum function) + word table and codec literals re-extracted from the source and re-checked by the Lean kernel on every run + differential correspondence and independent reference oracle on the real codec, SeedFromPhrase, KeyFromSeed, NewSeedPhrase",
